@@ -2246,6 +2246,8 @@ package sod
 //@ serves C19 C04
 //@ requires f != nil
 //@ ensures [C19 vts.class] imp(err != nil, errIs(err, ErrCasting) || errIs(err, ErrUnknownKeyType))
+//@ let n0 interface{} := f.Value
+//@ ensures [C04 vts.exact] imp(err == nil && t != "string", typeis(n0, json.Number) && imp(t == "int64", f.Value == toval(cast(atoi(n0.(json.Number)), int64))) && imp(t == "uint64", f.Value == toval(cast(atou(n0.(json.Number)), uint64))))
 //@ ensures [C04 vts.kind] imp(err == nil, (t == "string" && isVStr(f.Value)) || (t == "float64" && typeis(f.Value, float64)) || (t == "int64" && typeis(f.Value, int64)) || (t == "uint64" && typeis(f.Value, uint64)))
 //@ modifies indexedField.Value@f
 //@ allocates Elem[interface{}]
